@@ -912,15 +912,22 @@ def Res.render : Res → String
   | .invFail w ln => s!"inv:{w}@{ln}"
   | .outOfFuel => "outOfFuel"
 
-def RunResult.render (r : RunResult) : String :=
-  s!"OK out={renderOut r.out} res={r.res.render} steps={r.steps} maxheap={r.maxHeapWritten} blocks={r.heapBlocksBelowFrontier}"
+def RunResult.render (r : RunResult) (withBlocks : Bool) : String :=
+  s!"OK out={renderOut r.out} res={r.res.render} steps={r.steps} maxheap={r.maxHeapWritten}" ++
+    (if withBlocks then s!" blocks={r.heapBlocksBelowFrontier}" else "")
 
-/-- `mon`: comma-separated subset of `heap`, `wf`, `heapsize=<bytes>` (or empty / `none`). -/
+/-- `mon`: words separated by `,` or blanks: `heap`, `wf`, `heapbytes=<n>` (size of the heap region;
+`heapsize=<n>` is accepted too), `cc` / `none` (no effect: the exit checks are always on). -/
 def parseMon (mon : String) : Option MonCfg :=
-  ((mon.splitOn ",").map (·.trimAscii.toString)).foldlM (init := ({} : MonCfg)) fun cfg tok =>
-    if tok == "" || tok == "none" || tok == "cc" then some cfg
+  let words := ((String.ofList (mon.toList.map fun c => if c == ',' then ' ' else c)).splitOn " ").filter (· ≠ "")
+  words.foldlM (init := ({} : MonCfg)) fun cfg tok =>
+    if tok == "none" || tok == "cc" then some cfg
     else if tok == "heap" then some { cfg with heap := true }
     else if tok == "wf" then some { cfg with wf := true }
+    else if tok.startsWith "heapbytes=" then
+      match (tok.drop 10).toString.toNat? with
+      | some n => some { cfg with mem := { cfg.mem with heapBytes := n } }
+      | none => none
     else if tok.startsWith "heapsize=" then
       match (tok.drop 9).toString.toNat? with
       | some n => some { cfg with mem := { cfg.mem with heapBytes := n } }
@@ -931,7 +938,7 @@ def parseArgs (args : String) : Option (List Word) :=
   ((args.splitOn " ").filter (· ≠ "")).mapM fun a => (a.toInt?).map (BitVec.ofInt 64)
 
 /-- `asmText`: the routine text (S7a); `args`: blank-separated signed decimal arguments of main;
-`mon`: see `parseMon`. Reply: `OK out=[..] res=.. steps=.. maxheap=.. blocks=..` |
+`mon`: see `parseMon`. Reply: `OK out=[..] res=.. steps=.. maxheap=..` (+ ` blocks=..` with `heap`) |
 `PARSE-ERROR line <n>: <text>` | `WF-ERROR line <n>: <what>` | `BAD <what>`. -/
 def runLine (asmText args : String) (fuel : Nat) (mon : String) : String :=
   match parseMon mon, parseArgs args with
@@ -943,7 +950,7 @@ def runLine (asmText args : String) (fuel : Nat) (mon : String) : String :=
     | .ok ls =>
       match (if cfg.wf then wfCheck asmText else .ok ()) with
       | .error e => e
-      | .ok () => (runProg (layout ls) as fuel cfg).render
+      | .ok () => (runProg (layout ls) as fuel cfg).render cfg.heap
 
 /-- `wf` as a line function: `WF OK` | `PARSE-ERROR …` | `WF-ERROR …`. -/
 def wfLine (asmText : String) : String :=
